@@ -769,8 +769,8 @@ pub fn c05_grid(full: bool) -> Tally {
     let id = oid(7);
     let price = 55;
     let timestamp = 12345;
-    let time_in_force = TimeInForce::Gtd(99);
     let sides: &[Side] = if full { &SIDES } else { &SIDES[..1] };
+    let all_tifs = [TimeInForce::Gtd(99), TimeInForce::Gtc, TimeInForce::Ioc, TimeInForce::Fok, TimeInForce::Day];
     let mut check = |t: &mut Tally, o: &Ord_, incoming: u64| {
         t.evaluations += 1;
         let vis = o_vis(o);
@@ -849,8 +849,7 @@ pub fn c05_grid(full: bool) -> Tally {
             t.fail(format!("C05 match_against({}, incoming {incoming}): {}", short(o), bad.join("; ")));
         }
     };
-    for side in sides {
-        let side = *side;
+    for (side, time_in_force) in sides.iter().flat_map(|s| all_tifs.iter().map(move |t| (*s, *t))) {
         for q in &qv {
             let quantity = *q;
             let plain = [
@@ -902,7 +901,7 @@ pub fn run_c05(tier: &str) -> i32 {
     }
     report.cov("evaluations", json!(t.evaluations));
     report.cov("distinct_nontrivial", json!(t.nontrivial));
-    report.cov("rule", json!("full Cartesian product: 7 order types x displayed, hidden in {0..8,79,80,81,255,256,2^16,2^32-1,2^32,2^63,MAX-1,MAX} (displayed+hidden <= MAX) x threshold in {0,1,2,3,9,MAX} x amount in {None,0,1,2,80,81,MAX} x auto x incoming in {0..10,79,80,81,255,256,2^16-1,2^32,2^63+1,MAX-1,MAX} x side; each match_against result is checked against the statement's predicates (iceberg tranche as an inequality, everything else exactly); non-trivial = displayed > 0, incoming > 0 and the order is partially filled or has hidden quantity"));
+    report.cov("rule", json!("full Cartesian product: 7 order types x displayed, hidden in {0..8,79,80,81,255,256,2^16,2^32-1,2^32,2^63,MAX-1,MAX} (displayed+hidden <= MAX) x threshold in {0,1,2,3,9,MAX} x amount in {None,0,1,2,80,81,MAX} x auto x incoming in {0..10,79,80,81,255,256,2^16-1,2^32,2^63+1,MAX-1,MAX} x side x time-in-force in {GTD, GTC, IOC, FOK, DAY}; each match_against result is checked against the statement's predicates (iceberg tranche as an inequality, everything else exactly); non-trivial = displayed > 0, incoming > 0 and the order is partially filled or has hidden quantity"));
     report.cov("samples", json!(t.samples));
     report.cov("exhaustive", json!(true));
     report.assumptions = vec!["grid values only; the same rules are observed through PriceLevel::match_order by engine S (C02, C04)".into()];
